@@ -2162,6 +2162,16 @@ Qed.
 Lemma Pkr_keep_declined : forall s0 s1, Pkr sch s1 -> Pkr sch (keep_declined s0 s1).
 Proof. intros. unfold keep_declined. destruct (s_declined s0); exact H. Qed.
 
+Lemma Pkr_flushobj_op : forall s h, Pkr sch s -> Pkr sch (fst (flushobj_op sch s h)).
+Proof.
+  intros s h P. unfold flushobj_op. destruct (hget s h) as [o|]; [|exact P]. destruct (get_obj s o) as [ob|]; [|exact P].
+  assert (X : Pkr sch (fst (match o_pos ob with None => (s, RErr EAssertion) | Some _ => if s_savedpend s then (s, RErr EAssertion) else
+               match save_obj (S (length (s_objs s))) sch s o [] with Ok s1 _ => (set_savedpend s1 false, ROk) | Err s1 er => (s1, RErr er) end end))).
+  { destruct (o_pos ob); [|exact P]. destruct (s_savedpend s). exact P.
+    assert (Q : Pkr sch (out_state (save_obj (S (length (s_objs s))) sch s o []))) by (apply Pkr_save_obj; auto). destruct (save_obj (S (length (s_objs s))) sch s o []) as [s1 u|s1 er]; exact Q. }
+  destruct (o_st ob); try exact P; exact X.
+Qed.
+
 Lemma Pkr_step : forall s op, Pkr sch s -> Pkr sch (fst (step sch s op)).
 Proof.
   intros s op P. unfold step. destruct (s_declined s). exact P.
@@ -2187,6 +2197,7 @@ Proof.
     exact P1. apply Pkr_keep_declined. apply Pkr_reset.
   - unfold rollback_op. cbn [fst]. apply Pkr_keep_declined. apply Pkr_reset.
   - unfold newsession_op. destruct (flush sch s) as [s1 u|s1 er]; cbn [fst]; apply Pkr_keep_declined; apply Pkr_reset.
+  - apply Pkr_flushobj_op; auto.
 Qed.
 
 Lemma Pkr_init : Pkr sch (init_sess sch).
